@@ -145,6 +145,11 @@ def check(ctx):
     from .c19 import check_delegation
 
     check_delegation(ctx, "C12-f", only={"oil_FVF", "oil_viscosity", "pressure_bubblepoint"})
+    # C12-h: the bubble-point behaviour of the array forms is that of the scalar forms (array arm == scalar arm, masks
+    # split at the same predicate) - shared with C11-b/c
+    from .c11 import check_split
+
+    check_split(ctx, "C12-h", "C12-h")
 
     # ---- C12-g ordering clauses decided by sign (the numerical margin is proved by interval branch and bound over a
     # declared range; the Spivey compressibility itself is an opaque positive quantity here - its positivity is not decided)
